@@ -474,6 +474,15 @@ class CountLoop:
     def havoc(self, interp, env, k, phase):
         env.set('count', k)
         f = env.get('f')
+        if phase == 'pres':
+            # preservation is proved for an arbitrary read size B >= 1 and file size S >= 0 (generalisation: the step does not
+            # depend on how they were computed; keeps the nonlinear header-size arithmetic out of this obligation)
+            B, S = Int('any_read_size'), Int('any_file_size')
+            self.vc.assume(And(B >= 1, S >= 0))
+            env.set('block_read_size', B)
+            f.size = S
+            f.cursor = smin(k * B, S)
+            return
         brs = env.get('block_read_size')
         f.cursor = smin(k * brs, f.size)
         lay = f.layout
